@@ -5,7 +5,7 @@ from .canon import enc
 from . import gen_common as G
 from .gen_c20 import _interleave, _place_faults
 
-GROUPS = ["cycle_mem", "cycle_file", "mixed_cycle", "inspect", "stale_load", "declarative", "declarative"]
+GROUPS = ["cycle_mem", "cycle_file", "mixed_cycle", "inspect", "stale_load", "declarative", "declarative", "overwrite"]
 SEAM_OPS = {"sc.foreign_ctx", "sc.dump", "sc.load"}
 
 SRC_KINDS = ["voltage_source", "current_source", "ac_voltage_source", "ac_current_source", "rect_voltage_source",
@@ -283,7 +283,7 @@ def plan(seed, overrides=None):
         "groups": sorted(rc.sample(GROUPS, rc.randint(2, len(GROUPS)))),
         "nest_p": rc.choice([0.2, 0.5, 0.9]),
         "wrap_p": rc.choice([0.0, 0.3]),
-        "fault_mode": rc.choice(["none", "none", "io", "io", "interrupt", "mixed"]),
+        "fault_mode": rc.choice(["none", "io", "io", "io", "interrupt", "mixed", "mixed"]),
         "mtime_mode": rc.choice(["fine", "fine", "coarse", "frozen"]),
         "buffer_size": rc.choice([1, 3, 7, 64, 512, 8192]),
         "n_drawings": rc.randint(1, 3),
@@ -327,7 +327,15 @@ def _place_faults_c15(r, steps, cfg):
         kind = mode if mode != "mixed" else r.choice(["interrupt", "io"])
         io = [s for s in cands if s["op"] in ("sc.dump", "sc.load") and "fault" not in s]
         if kind == "io" and io:
-            s = r.choice(io)
+            # faults belong where there is state to lose: prefer a dump that OVERWRITES a path written earlier in
+            # the history, and a load of a path that was written
+            seen, over = set(), []
+            for s2 in _all_steps(steps):
+                if s2["op"] == "sc.dump":
+                    if s2["a"]["path"] in seen and "fault" not in s2 and not s2.get("nested"):
+                        over.append(s2)
+                    seen.add(s2["a"]["path"])
+            s = r.choice(over) if over and r.random() < 0.6 else r.choice(io)
             s["fault"] = gen_io_fault(r, s["op"] == "sc.dump")
             # schematic files are large: spread the failure offsets over the whole file
             if "at" in s["fault"]:
@@ -375,6 +383,18 @@ def _script(r, client, world, counter):
                     cur = add("sc.deserialize", {"text": t, "fmt": "json"})
             if r.random() < 0.3:
                 add("sc.solve", {"d": cur, "kind": r.choice(["dc", "cx"]), "w": r.choice(G.W_VALUES)})
+        elif g == "overwrite":
+            # one path, two different drawings: the second dump replaces an acknowledged file (the place where an
+            # I/O fault has something to destroy or to resurrect), then the path is loaded
+            d2 = P(f"dr{r.randrange(nd)}")
+            add("sc.dump", {"path": path, "d": d})
+            if r.random() < 0.4:
+                add("sc.load", {"path": path})
+            add("sc.dump", {"path": path, "d": d2})
+            cur = add("sc.load", {"path": path})
+            if r.random() < 0.4:
+                t = add("sc.serialize", {"d": cur, "fmt": "json"})
+                add("sc.deserialize", {"text": t, "fmt": "json"})
         elif g == "inspect":
             if r.random() < 0.5:
                 add("sc.translate", {"d": d})
